@@ -51,5 +51,74 @@ def lits(x: fp.Real, y: fp.Real) -> fp.Real:
     return acc
 
 
+@fp.fpy
+def aug(x: fp.Real, y: fp.Real) -> fp.Real:
+    acc = x
+    acc += y
+    acc *= y
+    acc -= x / 16
+    acc /= y
+    return acc
+
+
+@fp.fpy
+def negabs(x: fp.Real, y: fp.Real) -> fp.Real:
+    # negation and absolute value are operations like any other: rounded, one draw each
+    a = x * y
+    b = -a
+    c = abs(b)
+    return c + x
+
+
+@fp.fpy
+def fused(x: fp.Real, y: fp.Real) -> fp.Real:
+    a = fp.fma(x, y, x)
+    return a + y
+
+
+@fp.fpy
+def casts(x: fp.Real, y: fp.Real) -> fp.Real:
+    # an explicit rounding of a rounded operation: two roundings, two draws
+    a = fp.round(x * y)
+    return fp.round(a) + x
+
+
+@fp.fpy
+def _plus1(v: fp.Real) -> fp.Real:
+    return v + 1
+
+
+@fp.fpy
+def callee(x: fp.Real, y: fp.Real) -> fp.Real:
+    # the argument is handed over as it is; the callee's operation is rounded under the same context
+    a = _plus1(x * y)
+    return a / y
+
+
+def make_withblk(C):
+    @fp.fpy
+    def withblk(x: fp.Real, y: fp.Real) -> fp.Real:
+        with C:
+            a = 1 / 3          # all-literal operation: rounded, with a draw, at every evaluation
+            b = x * y + a
+        return b
+    return withblk
+
+
+def make_withneg(C):
+    @fp.fpy
+    def withneg(x: fp.Real, y: fp.Real) -> fp.Real:
+        with C:
+            a = x / y
+            with C:
+                b = -a + 0.1
+        return b
+    return withneg
+
+
 # name -> number of rounded operations per evaluation
-PROGS = {'chain3': 3, 'loop4': 8, 'root2': 4, 'listy': 6, 'lits': 9}
+PROGS = {'chain3': 3, 'loop4': 8, 'root2': 4, 'listy': 6, 'lits': 9, 'aug': 5, 'negabs': 4, 'fused': 2, 'casts': 4,
+         'callee': 3, 'withblk': 3, 'withneg': 3}
+# programs made per context by a factory (the stochastic context is the `with` context of the program itself;
+# the caller's context is a deterministic one): name -> maker
+MAKERS = {'withblk': make_withblk, 'withneg': make_withneg}
